@@ -194,3 +194,21 @@ def effective_test(fn: Fn, test: ast.AST, depth: int = 3) -> ast.AST:
                 return copy.deepcopy(defs[n.id])
             return n
     return effective_test(fn, _S().visit(copy.deepcopy(test)), depth - 1)
+
+
+def eval3(test: ast.AST, val: Callable[[ast.AST], Optional[bool]]) -> Optional[bool]:
+    """Three-valued truth of `test` when `val` gives the truth (True / False / None = unknown) of its leaves."""
+    if isinstance(test, ast.BoolOp):
+        vs = [eval3(v, val) for v in test.values]
+        if isinstance(test.op, ast.Or):
+            return True if any(v is True for v in vs) else (False if all(v is False for v in vs) else None)
+        return False if any(v is False for v in vs) else (True if all(v is True for v in vs) else None)
+    if isinstance(test, ast.UnaryOp) and isinstance(test.op, ast.Not):
+        v = eval3(test.operand, val)
+        return None if v is None else (not v)
+    return val(test)
+
+
+def guards_hold_when(fn: Fn, ctx: Ctx, val: Callable[[ast.AST], Optional[bool]]) -> bool:
+    """True iff every guard of the site is decided — in the site's favour — by the leaf valuation `val` alone."""
+    return all(eval3(effective_test(fn, e), val) is pol for e, pol in ctx.guards)
